@@ -86,3 +86,16 @@ Theorem C04_mgda_two_rows : forall n g1 g2 eps iters, length g1 = n -> length g2
   0 <= dotR g1 x /\ 0 <= dotR g2 x.
 Proof. exact mgda_two_rows_nonconflicting. Qed.
 Print Assumptions C04_mgda_two_rows.
+
+(* ---- MGDA's sub-optimality bound (added): with epsilon = 0 the K Frank-Wolfe iterations with exact
+   line search started at the mean leave |A(J)|^2 - min-norm^2 <= 8 s^2 / (K + 2), s any upper
+   bound of the largest singular value (|J^T v| <= s |v|); with C04_mgda_allowance this closes the
+   statement's "whose sub-optimality itself is at most 8 s^2 / (max_iters + 2)" for EVERY K ---- *)
+From TJ.proofs Require Import MgdaRateProofs.
+Theorem C04_mgda_rate : forall n J K wstar s, wfmat n J -> hull_min n J wstar -> 0 <= s ->
+  (forall v, length v = length J -> dotR (vmR n v J) (vmR n v J) <= s * s * dotR v v) ->
+  let x := agg_mgda RN 0 K J in
+  let xstar := vmR n wstar J in
+  dotR x x - dotR xstar xstar <= 8 * (s * s) / (INR K + 2).
+Proof. exact mgda_fw_rate. Qed.
+Print Assumptions C04_mgda_rate.
